@@ -50,7 +50,7 @@ def registry_term(ctx: Ctx):
     """The container that run()'s cleanup cancels: term of the iterable of the cancel loop."""
     g = ctx.graph(ctx.manager_run().fid)
     for lp in cancel_loops(ctx, g):
-        return sym.term(ctx.p, lp.info['iter'], lp.inst)
+        return sym.term(ctx.p, _iter_source(lp.info['iter']), lp.inst)
     return None
 
 
@@ -63,6 +63,22 @@ def _fallback_registry(ctx: Ctx):
                     and n.func.value.value.id == 'self' and 'task' in n.func.value.attr:
                 return ('attr', ('param', 'self'), n.func.value.attr)
     return None
+
+
+def _iter_source(e: ast.AST) -> ast.AST:
+    """The container a loop really walks: a filter / copy of it (`[t for t in X if ...]`, list(X), tuple(X), reversed(X),
+    filter(p, X)) walks elements of X."""
+    for _ in range(4):
+        if isinstance(e, (ast.ListComp, ast.GeneratorExp, ast.SetComp)) and len(e.generators) == 1 \
+                and isinstance(e.elt, ast.Name) and isinstance(e.generators[0].target, ast.Name) and e.elt.id == e.generators[0].target.id:
+            e = e.generators[0].iter
+        elif isinstance(e, ast.Call) and isinstance(e.func, ast.Name) and e.func.id in ('list', 'tuple', 'reversed', 'sorted', 'set', 'iter') and e.args:
+            e = e.args[0]
+        elif isinstance(e, ast.Call) and isinstance(e.func, ast.Name) and e.func.id == 'filter' and len(e.args) == 2:
+            e = e.args[1]
+        else:
+            break
+    return e
 
 
 def cancel_loops(ctx: Ctx, g: Graph) -> List[Ev]:
